@@ -1,11 +1,80 @@
-"""C13 — rules not implemented yet (fail closed)."""
-EXPLANATION = "not implemented"
-NOT_DECIDED = "everything"
+"""C13 — loading a subset of groups or variables equals projecting the full load."""
+from __future__ import annotations
+
+import ast
+
+from ..poly import S, Poly
+from ..source import norm, walk_no_nested
+from . import io_rules as io
+from . import io_rules2 as io2
+from .io_rules2 import TextEval
+
+EXPLANATION = (
+    "Static rules: (R1) skip = read in bytes: for every mesh reader class the per-block byte effect with every variable read "
+    "equals the effect with every variable skipped and equals step_over (polynomial identities), likewise the particle "
+    "header loop; (R2) selection normalisation folded over all select shapes: descriptor_to_variables (dict/True/False/list x "
+    "listed/unlisted) and Loader.load's per-kind _select (None, dicts with valid/unknown/switched-off groups, lists); every "
+    "reader initialised with the selection of its own kind; (R3) inactive readers are inert: only initialised readers join "
+    "the file loop, the AMR reader is added whenever a mesh reader is active; (R4) vector assembly folded over name sets "
+    "(complete/incomplete component sets, infix and suffix names, names containing an earlier 'x', 1/2/3-D); derived "
+    "variables formulas.")
+NOT_DECIDED = "bit-identity of the projected arrays (follows from R1 + the C01 layout rules); numpy concatenation order"
+TRUSTED = ("CPython ast", "S1 layout", "assumption A1 (mesh variables of type d)")
+TECHNIQUE = "static analysis: polynomial byte-effect identities between sibling branches; finite-case folding of the selection logic"
 
 
-def not_implemented(run, tree):
-    run.rule("C13.R0", "stub")
-    run.unresolved("stub", "", "rules for C13 are not implemented yet")
+def r1(run, tree):
+    run.rule("C13.R1", "skip = read, in bytes (mesh blocks, step_over, particle header)", "D1 + sibling agreement", "", floor=12)
+    io.check_bodies(run, tree)
+    io.check_part_header(run, tree)
 
 
-RULES = [not_implemented]
+def r2(run, tree):
+    run.rule("C13.R2", "selection normalisation", "D7", "", floor=12)
+    io2.check_descriptor_to_variables(run, tree)
+    io2.check_select_normalisation(run, tree)
+
+
+def r3(run, tree):
+    run.rule("C13.R3", "inactive readers are inert", "path rule", "", floor=3)
+    io2.check_inactive_readers(run, tree)
+    from .loader_rules import check_reinitialisation
+    check_reinitialisation(run, tree)
+
+
+def check_derived_variables(run, tree):
+    fi = tree.func("config/defaults.py::additional_variables")
+    run.analysed(fi)
+    D = fi.node.args.args[0].arg
+    for n in walk_no_nested(fi.node):
+        if isinstance(n, ast.Assign) and norm(n.targets[0]).startswith("%s['mesh'][" % D):
+            key = norm(n.targets[0]).split("[")[2].strip("']\"")
+            env = {"%s['mesh']['B_left']" % D: S("BL"), "%s['mesh']['B_right']" % D: S("BR"), "%s['mesh']['density']" % D: S("rho"),
+                   "%s['mesh']['dx']" % D: S("dx")}
+            v = n.value
+            if isinstance(v, ast.Call) and isinstance(v.func, ast.Attribute) and v.func.attr == "to":
+                v = v.func.value
+            ev = TextEval(tree, fi, env, {}, {})
+            ev.constant = lambda node: Poly.const(node.value) if isinstance(node.value, (int, float)) else node.value
+            try:
+                got = ev.ev(v)
+            except Exception as e:
+                run.unresolved("config/defaults.py::additional_variables[%s]" % key, fi.where(n), "cannot evaluate: %s" % e)
+                continue
+            want = {"B_field": (S("BL") + S("BR")) * Poly.const(0.5), "mass": S("rho") * S("dx") * S("dx") * S("dx")}.get(key)
+            if want is None:
+                continue
+            run.ob("config/defaults.py::additional_variables[%s]" % key, isinstance(got, Poly) and got == want, fi.where(n),
+                   "%s = %r" % (key, got), "derived variable %s is not %s" % (key, {"B_field": "the mean of the face fields", "mass": "density * dx**3"}[key]))
+    keys = [norm(x) for x in walk_no_nested(fi.node) if isinstance(x, ast.Subscript) and isinstance(x.value, ast.Name) and x.value.id == D]
+    run.ob("config/defaults.py::additional_variables::group-key", all(k == "%s['mesh']" % D for k in keys) and keys, fi.where(),
+           "derived variables read and written in %s" % sorted(set(keys)), "KeyError swallowed by the try/except: derived variables silently missing")
+
+
+def r4(run, tree):
+    run.rule("C13.R4", "vector assembly; derived variables", "D7 folding over name sets + D1", "", floor=10)
+    io2.check_vector_assembly(run, tree)
+    check_derived_variables(run, tree)
+
+
+RULES = [r1, r2, r3, r4]
